@@ -171,6 +171,14 @@ func (p *Prog) Origins(v ssa.Value, o OriginOpts) []ssa.Value {
 				}
 				switch a := x.X.(type) {
 				case *ssa.FieldAddr:
+					// per-datagram / per-connection state kept in a struct that is handed around by pointer: the field holds
+					// what was last stored through that very pointer (decided without alias analysis, or not at all)
+					if vals, complete := p.FieldReaching(x); complete && len(vals) > 0 {
+						for _, sv := range vals {
+							walk(sv, d+1)
+						}
+						return
+					}
 					if o.ThroughFieldLoad {
 						walk(a.X, d+1)
 						return
